@@ -31,7 +31,7 @@ def local_store_class(ctx: Ctx) -> Class:
                 cands.append(c)
     if len(cands) == 1:
         return cands[0]
-    c = ctx.prog.classes.get("dds.store.LocalFileStore")
+    c = ctx.prog.cls("dds.store.LocalFileStore")
     if c is None:
         raise AnchorError("role local-file-store (Store subclass using os.path) not found")
     return c
@@ -793,7 +793,7 @@ def record_rewritten_unless_current(ctx: Ctx, rule: str) -> int:
     record read from the store already names the key being committed"""
     rep = ctx.report
     prog = ctx.prog
-    cls = prog.classes.get("dds.codecs.databricks.DBFSStore")
+    cls = prog.cls("dds.codecs.databricks.DBFSStore")
     if cls is None or "sync_paths" not in cls.methods:
         raise AnchorError("dds.codecs.databricks.DBFSStore.sync_paths not found")
     f = cls.methods["sync_paths"]
@@ -855,7 +855,7 @@ def uri_join_keeps_names(ctx: Ctx, rule: str) -> int:
     `s.startswith('.')` also matches '.hidden' and cuts into the name: '/.a/b' and '/a/b' then share a location."""
     rep = ctx.report
     prog = ctx.prog
-    cls = prog.classes.get("dds.codecs.databricks.DBFSURI")
+    cls = prog.cls("dds.codecs.databricks.DBFSURI")
     if cls is None or "joinpath" not in cls.methods:
         raise AnchorError("role URI join (dds.codecs.databricks.DBFSURI.joinpath) not found")
     n = 0
